@@ -325,6 +325,117 @@ pub async fn run(args: &Args, rep: &mut Reporter) {
             }
         }
     }
+    // ---- server force merges (replace-all) with right and wrong checkpoints ---------------------
+    // every log type through the server's ForceMerge; a refused replacement changes nothing,
+    // neither in the handle the server keeps nor in a freshly read copy
+    {
+        use sos_core::events::patch::Diff;
+        use sos_core::events::{DeviceEvent, EventLog};
+        use sos_sync::{ForceMerge, MergeOutcome};
+        let rounds = args.by_tier(6usize, 24usize);
+        for r in 0..rounds {
+            let which = whichs[(r + args.shard) % whichs.len()];
+            let wi = whichs.iter().position(|x| *x == which).unwrap();
+            let base = bases[wi].1;
+            let suffix: Vec<u8> = (0..(1 + (r % 3))).map(|_| rng.usize(3) as u8).collect();
+            let leaves = {
+                let s = srv.read().await;
+                match set_log(&*s, which, &base, &suffix).await {
+                    Ok(l) => l,
+                    Err(_) => continue,
+                }
+            };
+            let kind = ["wrong_root", "wrong_length", "right"][(r / whichs.len() + args.shard) % 3];
+            // the replacement: the server's own records (so that a success is harmless) plus,
+            // for the wrong kinds, a checkpoint that is not their head
+            macro_rules! full {
+                ($log:expr) => {{
+                    let log = $log.map_err(|e| e.to_string());
+                    match log {
+                        Ok(l) => l.read().await.diff_unchecked().await.map_err(|e| e.to_string()),
+                        Err(e) => Err(e),
+                    }
+                }};
+            }
+            let before = {
+                let s = srv.read().await;
+                all_logs(&*s).await.unwrap_or_default()
+            };
+            let mut good = tree_of(&leaves).head().unwrap();
+            match kind {
+                "wrong_root" => good.root = CommitHash(vkit::sha256(&rng.bytes(8))),
+                "wrong_length" => {
+                    let mut l = leaves.clone();
+                    l.push(vkit::sha256(&rng.bytes(8)));
+                    good = tree_of(&l).head().unwrap();
+                }
+                _ => {}
+            }
+            let mut outcome = MergeOutcome::default();
+            let res: Result<(), String> = {
+                let mut s = srv.write().await;
+                match which {
+                    Which::Identity => match full!(s.identity_log().await) {
+                        Ok(d) => s.force_merge_identity(Diff::<WriteEvent>::new(d.patch, good, None), &mut outcome).await.map_err(|e| e.to_string()),
+                        Err(e) => Err(format!("prepare: {e}")),
+                    },
+                    Which::Account => match full!(s.account_log().await) {
+                        Ok(d) => s.force_merge_account(Diff::<AccountEvent>::new(d.patch, good, None), &mut outcome).await.map_err(|e| e.to_string()),
+                        Err(e) => Err(format!("prepare: {e}")),
+                    },
+                    Which::Device => match full!(s.device_log().await) {
+                        Ok(d) => s.force_merge_device(Diff::<DeviceEvent>::new(d.patch, good, None), &mut outcome).await.map_err(|e| e.to_string()),
+                        Err(e) => Err(format!("prepare: {e}")),
+                    },
+                    Which::Folder(id) => match full!(s.folder_log(&id).await) {
+                        Ok(d) => s.force_merge_folder(&id, Diff::<WriteEvent>::new(d.patch, good, None), &mut outcome).await.map_err(|e| e.to_string()),
+                        Err(e) => Err(format!("prepare: {e}")),
+                    },
+                }
+            };
+            if let Err(e) = &res {
+                if e.starts_with("prepare:") {
+                    rep.inconclusive(&format!("cannot prepare a force merge: {e}"));
+                    continue;
+                }
+            }
+            let after = {
+                let s = srv.read().await;
+                all_logs(&*s).await.unwrap_or_default()
+            };
+            rep.count(&format!("force_merge:{}:{kind}", which.name()), 1);
+            rep.count(&format!("force_merge_outcome:{}", if res.is_ok() { "ok" } else { "refused" }), 1);
+            let mut h = Fnv::new();
+            h.str("force").str(which.name()).str(kind).bytes(&suffix).str(sname);
+            rep.case(h.finish(), true);
+            let ctx = json!({"job": "c07patch", "phase": "server_force_merge", "server": sname, "log": which.name(), "checkpoint": kind, "server_suffix": suffix});
+            let sig = format!("C07:force_merge:{sname}:{}", which.name());
+            match (&res, kind) {
+                (Ok(()), "right") => {
+                    if after != before {
+                        rep.violation(&format!("{sig}:accepted_but_log_differs"), "replacing a log by its own records under their head proof changed it", ctx.clone());
+                    }
+                }
+                (Ok(()), _) => rep.violation(&format!("{sig}:accepted_on_wrong_checkpoint:{kind}"), &format!("a replacement whose checkpoint ({kind}) is not the head of its records was accepted"), ctx.clone()),
+                (Err(e), "right") => rep.violation(&format!("{sig}:refused_on_right_checkpoint"), &format!("a replacement carrying the head proof of its records was refused: {e}"), ctx.clone()),
+                (Err(e), _) => {
+                    if after != before {
+                        let id = match which {
+                            Which::Identity => LogId::Identity,
+                            Which::Account => LogId::Account,
+                            Which::Device => LogId::Device,
+                            Which::Folder(id) => LogId::Folder(id),
+                        };
+                        let n0 = before.get(&id).map(|v| v.len()).unwrap_or(0);
+                        let n1 = after.get(&id).map(|v| v.len()).unwrap_or(0);
+                        rep.violation(&format!("{sig}:refused_but_log_changed"), &format!("a refused replacement ({e}) left the {} log changed: {n0} records before, {n1} after", which.name()), ctx.clone());
+                    } else {
+                        rep.count("force_merge_refused_and_unchanged", 1);
+                    }
+                }
+            }
+        }
+    }
     for (which, base) in &bases {
         let s = srv.read().await;
         let _ = set_log(&*s, *which, base, &[]).await;
